@@ -5,14 +5,15 @@
    the history folded up:
      g.en        roles whose last successful enable/disable was an enable
      g.gr        (address, role) pairs granted successfully and not revoked successfully since
+     g.known     roles that were ever enabled successfully (a role is never removed from the map)
      g.restarted a cluster restart happened and no successful update_last_restarted_slot since
    e is the event [op, a, r, ok, err, ...]; o0 / o1 the observations before / after. *)
 EXTENDS Roles
 
-Ghost0 == [en |-> {}, gr |-> {}, restarted |-> FALSE]
+Ghost0 == [en |-> {}, gr |-> {}, known |-> {}, restarted |-> FALSE]
 GhostNext(g, e) ==
   IF ~e.ok THEN g
-  ELSE CASE e.op = "enable"  -> [g EXCEPT !.en = g.en \cup {e.r}]
+  ELSE CASE e.op = "enable"  -> [g EXCEPT !.en = g.en \cup {e.r}, !.known = g.known \cup {e.r}]
          [] e.op = "disable" -> [g EXCEPT !.en = g.en \ {e.r}]
          [] e.op = "grant"   -> [g EXCEPT !.gr = g.gr \cup {<<e.a, e.r>>}]
          [] e.op = "revoke"  -> [g EXCEPT !.gr = g.gr \ {<<e.a, e.r>>}]
@@ -53,6 +54,15 @@ MonMustFail(g0, e) ==
   /\ (e.op = "revoke" /\ <<e.a, e.r>> \notin g0.gr) => ~e.ok
   /\ (e.op = "enable" /\ e.r \in g0.en)             => ~e.ok
 
+(* "up to the 32-role and 64-member capacities": like a set, the store accepts a new role while
+   fewer than capRoles roles are known, and a grant of an enabled role the address does not hold
+   while the address is a member already or fewer than capMembers members exist *)
+GhostMembers(g) == {p[1] : p \in g.gr}
+MonCapacity(g0, e, capRoles, capMembers) ==
+  /\ (e.op = "enable" /\ e.r \notin g0.known /\ Cardinality(g0.known) < capRoles) => e.ok
+  /\ (e.op = "grant" /\ e.r \in g0.en /\ <<e.a, e.r>> \notin g0.gr
+        /\ (e.a \in GhostMembers(g0) \/ Cardinality(GhostMembers(g0)) < capMembers)) => e.ok
+
 (* ... and a failing grant / revoke / enable has no side effects *)
 MonFailNoEffect(e, o0, o1) ==
   (~e.ok /\ e.op \in {"grant", "revoke", "enable"}) => o1 = o0
@@ -60,13 +70,15 @@ MonFailNoEffect(e, o0, o1) ==
 StateMonitors(g, o, authority) ==
   << <<"Has", MonHas(g, o)>>, <<"Member", MonMember(g, o)>>, <<"StoreHas", MonStoreHas(g, o)>>,
      <<"Admin", MonAdmin(g, o, authority)>> >>
-StepMonitors(g0, e, o0, o1) ==
-  << <<"MustFail", MonMustFail(g0, e)>>, <<"FailNoEffect", MonFailNoEffect(e, o0, o1)>> >>
+StepMonitors(g0, e, o0, o1, capRoles, capMembers) ==
+  << <<"MustFail", MonMustFail(g0, e)>>, <<"FailNoEffect", MonFailNoEffect(e, o0, o1)>>,
+     <<"Capacity", MonCapacity(g0, e, capRoles, capMembers)>> >>
 AllHold(mons) == \A k \in DOMAIN mons : mons[k][2]
 
 (* the abstraction function: what the implementation-shaped state means *)
 Abs(s) ==
   [en |-> {r \in DOMAIN s.roles : s.roles[r].en},
    gr |-> {p \in (DOMAIN s.members) \X (DOMAIN s.roles) : s.roles[p[2]].idx \in s.members[p[1]]},
+   known |-> DOMAIN s.roles,
    restarted |-> HasRestarted(s)]
 =============================================================================
